@@ -192,6 +192,19 @@ def check (c):
         worst = max (worst, d / 1e-9)
         if d > 1e-9:
             bad ('split', 'medium-split', 'form %s: splitting the second medium (height %.3g) at %s coordinate %.4g changes the pattern by %.3g of the maximum' % (name, piece [2], bnd, cs, d), measured = d, allowed = 1e-9)
+    # ... and the first medium of the two- and three-media forms (a medium follows the two pieces)
+    for name in ('2med', '3med'):
+        mo, po = pats [name]
+        media  = copy.deepcopy ([f for f in forms if f [0] == name][0][1])
+        cs     = media [0][3] * 0.45
+        media  = [media [0][:3] + [cs]] + media
+        ms, _, _ = solved (spec, media, g ['boundary'])
+        ps = pattern (ms)
+        mon ['split'] = mon.get ('split', 0) + 1
+        d = np.abs (10 ** (ps [..., 2] / 10) - 10 ** (po [..., 2] / 10)).max () / (10 ** (po [..., 2] / 10)).max ()
+        worst = max (worst, d / 1e-9)
+        if d > 1e-9:
+            bad ('split', 'medium-split', 'form %s: splitting the first medium at %s coordinate %.4g (of %.4g) changes the pattern by %.3g of the maximum' % (name, g ['boundary'], cs, media [1][3], d), measured = d, allowed = 1e-9)
     # ---- (d) append a medium beyond every reflection point
     for name, base_media, bnd, rad in (forms [0], forms [1], forms [3]):
         far = max_reflection (m1, bnd or g ['boundary'])
